@@ -158,7 +158,7 @@ def fact_maintenance_body(repo):
 
 CFG = {
     "manifest": {
-        "text": "Proof: Lean theorems (Props/C16.lean) about an executable model of the throttle action's in-memory limiter (bucket ring with shift/reset, isAllowed, limit distributions with stealing, first-match rule choice, limiter key, limiters-map expiry as an op): the model refines an abstract machine with one never-reset counter per (limiter key, bucket, distribution column) for every op sequence, from which per-bucket limits, distribution shares, no rejection under the limit and key independence follow. The model is tied to the real throttle.Plugin (factory, Start, Do, injected clock) by differential runs on every check.",
+        "text": "Proof: Lean theorems (Props/C16.lean) about an executable model of the throttle action's in-memory limiter (bucket ring with shift/reset, isAllowed, limit distributions with stealing, first-match rule choice, limiter key, limiters-map expiry as an op): the model refines an abstract machine with one never-reset counter per (limiter key, bucket, distribution column) for every op sequence, from which per-bucket limits, distribution shares, no rejection under the limit and key independence follow; the map's generations and maintenance iteration are modelled on top (a tick = the expire ops of the keys it deletes) and proved safe when the expiration covers the window plus the staleness of a generation stamp, with a counterexample for an access that does not refresh the generation. The model is tied to the real throttle.Plugin (factory, Start, Do, injected clock) by differential runs on every check.",
         "note": "Trusted: Lean kernel + the three standard axioms; fdmodel compilation; harness. Assumed: clock non-decreasing and later than 1970-01-01 plus one retained window; no int64 overflow; limiter expiry only after the key was silent for a whole retained window (made true by the fix: limiter_expiration is raised to bucket_interval*buckets_count; the map's generation stamp has 1 s granularity). Redis backend out of scope. Per-value limits of a distribution are inputs (float rounding happens at configuration time; the harness reports sum of shares vs limit).",
         "technique": "Lean 4 proof (simulation invariant over op lists, refinement to unbounded counters) + differential correspondence on the real plugin",
     },
@@ -166,11 +166,12 @@ CFG = {
     "facts": [("throttle-maintenance-iteration", fact_maintenance_body)],
     "nontrivial": c16_nontrivial,
     "classify": c16_classify,
-    "rule": "exhaustive sequences up to length 3 (quick) / 4 (thorough) over (event time relative to the window) x (clock step) for buckets 1..3 x limit 0..2; random sequences of 1-300 events, 1-5 keys, 1-3 rules, buckets 1..6, six interval scales, clock jumps 0..3 windows, count and size kinds, distributions with 0-3 listed ratios; a stream near the epoch (minID = 0 sentinel); cases with real map maintenance (X ops). distinct = distinct case line; non-trivial = at least one event passed and one was discarded",
-    "corr_name": "Throttle.step (results, final bucket rings of every limiter, distribution shares) = throttle.Plugin.Do on the in-memory backend",
+    "rule": "exhaustive sequences up to length 3 (quick) / 4 (thorough) over (event time relative to the window) x (clock step) for buckets 1..3 x limit 0..2; random sequences of 1-300 events, 1-5 keys, 1-3 rules, buckets 1..6, six interval scales, clock jumps 0..3 windows, count and size kinds, distributions with 0-3 listed ratios; a stream near the epoch (minID = 0 sentinel); cases with real map maintenance (X ops); map life cycle cases on a logical wall clock (I/T ops: busy keys used between all maintenance iterations with their bucket exhausted, idle keys that expire, keys re-created after a silence; expiration below / just above / far above the window). distinct = distinct case line; non-trivial = at least one event passed and one was discarded",
+    "corr_name": "Throttle.step + expandStep (results, keys removed by every maintenance iteration, effective expiration, final bucket rings and generations of every limiter, distribution shares) = throttle.Plugin.Do on the in-memory backend",
     "trusted_base": [
         "verif accessors of plugin/action/throttle/export_verif_c16.go (nowFn injection, bucket dump, map keys, parseLimitDistribution)",
-        "wall-clock maintenance of the limiters map is an environment input: the keys it deleted are read from the run and replayed by the model as expire ops",
+        "X ops: wall-clock maintenance of the limiters map is an environment input: the keys it deleted are read from the run and replayed by the model as expire ops",
+        "T ops: VerifMaintenanceOnce is a copy of the maintenance loop body with the time as a parameter; the source fact throttle-maintenance-iteration compares it with the real loop body on every run",
         "modelled, not verified: insane-json Dig/AsString on flat string fields, xtime.ParseTime(unixtimenano)",
     ],
     "assumptions": [
